@@ -11,9 +11,9 @@ ASSUMPTIONS = ["QRegExp is an oracle (pattern, path) -> (match, rest after match
 TRUSTED = ["instrumented Handler/Middleware subclasses log their invocation; SimTcp stands in for TCP"]
 
 SEGS = [b"api", b"a", b"b", b"go", b"x1", b"42", b"files", b"a%20b", b"%0d%0aX-Evil:%20y", b"%2f", b"%25", b"%252", b"%251", b"%2541", b"g%256F", b"%252F", b"%2561pi", b"a%252Fb", b"%E2%82%AC", b"", b".", b"%3f", b"a+b", b"~u"]
-SUBPATS = [b"^apis?/", b"^x1*", b"^api/{0,1}", b"^go?/", b"^ab?", b"^api/", b"^a", b"^(\\w+)/", b"^files/?", b"^go/", b"^", b"^x\\d+", b"^[ab]+/", b"^api", b"^%", b"^nomatch/",
+SUBPATS = [b"\x01i\x01^API/", b"\x01i\x01^Files/", b"\x01m\x01^.*/", b"\x01w\x01a*", b"^apis?/", b"^x1*", b"^api/{0,1}", b"^go?/", b"^ab?", b"^api/", b"^a", b"^(\\w+)/", b"^files/?", b"^go/", b"^", b"^x\\d+", b"^[ab]+/", b"^api", b"^%", b"^nomatch/",
            b"^\\d*", b"^[a-c]*", b"^.*", b"^(x?)"]        # patterns that can match the empty string at the start
-REDIRPATS = [b"^go/(.*)$", b"^old$", b"^(\\w+)/(\\d+)$", b"^a(.)(.)", b"^$", b"(\\d+)", b"^never$", b"^x(\\d)(\\d)?$", b"b$"]
+REDIRPATS = [b"\x01i\x01^GO/(.*)$", b"\x01w\x01*.php", b"\x01m\x01^(.*)/(.*)$", b"^go/(.*)$", b"^old$", b"^(\\w+)/(\\d+)$", b"^a(.)(.)", b"^$", b"(\\d+)", b"^never$", b"^x(\\d)(\\d)?$", b"b$"]
 TEMPLATES = [b"/new/%1", b"/%2/%1", b"%1%1", b"/fixed", b"/p/%1/%3", b"/n/%1/%2", b"http://h/%1?q=%1"]
 
 
@@ -134,7 +134,13 @@ def build(tier, seed, ctx, refuse_ok, n):
         rxtab = [[pat, p, r[0], r[1], r[2]] for (pat, p), r in sorted(tab.items())]
         passes = 1 if rng.chance(1, 2) else 0
         head = b"GET " + raw + b" HTTP/1.1\r\nHost: h\r\n" + (b"X-Pass: 1\r\n" if passes else b"") + b"\r\n"
-        if rng.chance(1, 6):
+        if rng.chance(1, 8):
+            # the shape of a CORS preflight (OPTIONS + Origin + Access-Control-Request-Method), and other methods: the gate and the
+            # routing do not look at the method
+            m = rng.choice([b"OPTIONS", b"OPTIONS", b"HEAD", b"DELETE", b"PUT"])
+            head = (m + b" " + raw + b" HTTP/1.1\r\nHost: h\r\nOrigin: https://app.example\r\nAccess-Control-Request-Method: POST\r\n" +
+                    (b"X-Pass: 1\r\n" if passes else b"") + b"\r\n")
+        elif rng.chance(1, 6):
             # a request that announces a body and withholds it, with a header a server might be tempted to act on by itself
             hn, hv = rng.choice(G.SEMANTIC)
             head = (b"POST " + raw + b" HTTP/1.1\r\nHost: h\r\n" + hn + b": " + hv + b"\r\nContent-Length: 5\r\n" +
